@@ -1889,7 +1889,7 @@ class Interp:
             while isinstance(itv, Ref):
                 itv = self.load(st, itv.cell, itv.path)
             if isinstance(itv, Iter) and itv.fns:
-                kinds = [k for k in itv.kind if k in ('map', 'filter', 'take_while', 'inspect')]
+                kinds = [k for k in itv.kind if k in ('map', 'filter', 'take_while', 'inspect', 'filter_map')]
                 if len(kinds) != len(itv.fns):
                     raise Unanalysable('adaptor closures of %r' % (itv.kind,), site)
                 from . import lower
